@@ -140,10 +140,12 @@ class Path(parent.Geometry):
         """
         Apply basic cleaning functions to the Path object in-place.
         """
-        with self._cache:
-            self.merge_vertices()
-            self.remove_duplicate_entities()
-            self.remove_unreferenced_vertices()
+        # every step edits vertices or entities so values computed
+        # before must not be used in between or survive afterwards,
+        # which they would if cache checks were suspended here
+        self.merge_vertices()
+        self.remove_duplicate_entities()
+        self.remove_unreferenced_vertices()
         return self
 
     @property
